@@ -264,23 +264,7 @@ def check(run, M, tier, rule_prefix=""):
               "I6", "registry fill", mod.path, "_interpolate[k] = _get_interpolate(k), _gridding[k] = _get_gridding(k)",
               "kernel tables are filled as %s" % fills, stmt="I6:fill")
     # I5
-    for name, ref in (("_spline_kernel", REF_SPLINE), ("_kaiser_bessel_kernel", REF_KB)):
-        f = M.func("sigpy.interp." + name)
-        real = {"x", "order", "beta"}
-        _, code = vn_paths(M, f, real=real)
-        _, rf = vn_ref(ref.strip(), model=M, func=f, real=real)
-        code = [o for o in code if o.status == "return"]
-        rf = [o for o in rf if o.status == "return"]
-        ok = len(code) == len(rf)
-        bad = []
-        for o in code:
-            cs = frozenset(c.key() for c in o.conds)
-            m = [r for r in rf if frozenset(c.key() for c in r.conds) == cs]
-            if len(m) != 1 or not (isinstance(o.ret, T.Poly) and T.eq(o.ret, m[0].ret)):
-                ok = False
-                bad.append((cond_text(o.conds), T.show(o.ret, 200) if isinstance(o.ret, T.Poly) else o.ret, T.show(m[0].ret, 200) if m else "no such case"))
-        run.check(ok, "I5", name, f.loc(), "equals the documented kernel on %d cases" % len(rf),
-                  "%s deviates from the documented kernel: %s" % (name, bad[:2] or "different case split (%d vs %d)" % (len(code), len(rf))), stmt="I5:" + name)
+    check_kernel_functions(run, M, "I5")
     # I7
     for name in ("interpolate", "gridding"):
         f = M.func("sigpy.interp." + name)
@@ -297,3 +281,28 @@ def check(run, M, tier, rule_prefix=""):
                 bad.append((cond_text(o.conds), T.show(o.ret, 500) if isinstance(o.ret, T.Poly) else o.ret))
         run.check(ok, "I7", "interp." + name, f.loc(), "wrapper flattens, broadcasts, zero-initialises, dispatches on ndim - 1 and reshapes back as documented",
                   "%s deviates from the documented wrapper: %s" % (name, bad[:1] or "different case split"), stmt="I7:" + name)
+
+
+def check_kernel_functions(run, M, rule, names=("_spline_kernel", "_kaiser_bessel_kernel")):
+    """the scalar kernel functions equal their documented forms (also used by C06 for the Kaiser-Bessel kernel); constant-range loops are
+    unrolled, so a series written as a loop is compared term by term with the documented polynomial"""
+    from ..vn import unroll_loop
+    for name, ref in (("_spline_kernel", REF_SPLINE), ("_kaiser_bessel_kernel", REF_KB)):
+        if name not in names:
+            continue
+        f = M.func("sigpy.interp." + name)
+        real = {"x", "order", "beta"}
+        _, code = vn_paths(M, f, real=real, loop_hook=unroll_loop)
+        _, rf = vn_ref(ref.strip(), model=M, func=f, real=real)
+        code = [o for o in code if o.status == "return"]
+        rf = [o for o in rf if o.status == "return"]
+        ok = len(code) == len(rf)
+        bad = []
+        for o in code:
+            cs = frozenset(c.key() for c in o.conds)
+            m = [r for r in rf if frozenset(c.key() for c in r.conds) == cs]
+            if len(m) != 1 or not (isinstance(o.ret, T.Poly) and T.eq(o.ret, m[0].ret)):
+                ok = False
+                bad.append((cond_text(o.conds), T.show(o.ret, 200) if isinstance(o.ret, T.Poly) else o.ret, T.show(m[0].ret, 200) if m else "no such case"))
+        run.check(ok, rule, name, f.loc(), "equals the documented kernel on %d cases" % len(rf),
+                  "%s deviates from the documented kernel: %s" % (name, bad[:2] or "different case split (%d vs %d)" % (len(code), len(rf))), stmt="%s:%s" % (rule, name))
